@@ -172,6 +172,82 @@ theorem renderer_neutral_size (sizeOk : Bool) (body : Prog) (hb : Neutral πSize
   | fixed j => simp only [hw] at hsz hsv; simp [hsv, hsz]
   | dynamic j => simp only [hw] at hsz hsv; simp [hsv]
 
+/-! ### syntactic checks that compute -/
+
+def Prog.allB (P : Act → Bool) (Q : Reg → Bool) : Prog → Bool
+  | .done => true
+  | .act a => P a
+  | .seq p q => p.allB P Q && q.allB P Q
+  | .tryFinally b fin => b.allB P Q && fin.allB P Q
+  | .tryExcept b h _ => b.allB P Q && h.allB P Q
+  | .raise _ => true
+  | .withNew _ _ t b => Q t && b.allB P Q
+
+theorem all_of_allB (P : Act → Bool) (Q : Reg → Bool) (p : Prog) (h : p.allB P Q = true) :
+    p.All (fun a => P a = true) (fun t => Q t = true) := by
+  induction p with
+  | done => trivial
+  | act a => exact h
+  | seq p q ihp ihq => simp only [Prog.allB, Bool.and_eq_true] at h; exact ⟨ihp h.1, ihq h.2⟩
+  | tryFinally b fin ihb ihf => simp only [Prog.allB, Bool.and_eq_true] at h; exact ⟨ihb h.1, ihf h.2⟩
+  | tryExcept b hd x ihb ihh => simp only [Prog.allB, Bool.and_eq_true] at h; exact ⟨ihb h.1, ihh h.2⟩
+  | raise e => trivial
+  | withNew c r t b ih => simp only [Prog.allB, Bool.and_eq_true] at h; exact ⟨h.1, ih h.2⟩
+
+theorem allB_mono (P P' : Act → Bool) (Q Q' : Reg → Bool) (hP : ∀ a, P a = true → P' a = true)
+    (hQ : ∀ t, Q t = true → Q' t = true) (p : Prog) (h : p.allB P Q = true) : p.allB P' Q' = true := by
+  induction p with
+  | done => rfl
+  | act a => exact hP a h
+  | seq p q ihp ihq => simp only [Prog.allB, Bool.and_eq_true] at h ⊢; exact ⟨ihp h.1, ihq h.2⟩
+  | tryFinally b fin ihb ihf => simp only [Prog.allB, Bool.and_eq_true] at h ⊢; exact ⟨ihb h.1, ihf h.2⟩
+  | tryExcept b hd x ihb ihh => simp only [Prog.allB, Bool.and_eq_true] at h ⊢; exact ⟨ihb h.1, ihh h.2⟩
+  | raise e => rfl
+  | withNew c r t b ih => simp only [Prog.allB, Bool.and_eq_true] at h ⊢; exact ⟨hQ t h.1, ih h.2⟩
+
+theorem allB_block (P : Act → Bool) (Q : Reg → Bool) (ps : List Prog) (h : ∀ p ∈ ps, p.allB P Q = true) :
+    (Prog.block ps).allB P Q = true := by
+  induction ps with
+  | nil => rfl
+  | cons p ps ih =>
+    cases ps with
+    | nil => simpa [Prog.block] using h p (by simp)
+    | cons q qs =>
+      simp only [Prog.block, Prog.allB, Bool.and_eq_true]
+      exact ⟨h p (by simp), ih (fun x hx => h x (by simp [hx]))⟩
+
+/-- the actions of the render code proper: Pillow calls, closes, local-variable moves — none of
+    which binds the generator's variable (`Reg.gen`) -/
+def Act.genFreeB : Act → Bool
+  | .create _ _ to _ => to != .gen
+  | .derive _ _ to => to != .gen
+  | .pil _ _ => true
+  | .useSource to => to != .gen
+  | .mov dst _ => dst != .gen
+  | .clear r => r != .gen
+  | .closeImage _ => true
+  | .closeUnless _ _ => true
+  | .rawOpen to => to != .gen
+  | .rawClose _ => true
+  | _ => false
+
+def Reg.notGen (t : Reg) : Bool := t != .gen
+
+theorem linesLoop_genFree (n : Nat) : (linesLoop n).allB Act.genFreeB Reg.notGen = true := by
+  induction n with
+  | zero => rfl
+  | succ n ih => simp only [linesLoop, Prog.allB, ih]; rfl
+
+theorem renderImage_genFree (v : Variant) (p : RP) : (renderImage v p).allB Act.genFreeB Reg.notGen = true := by
+  obtain ⟨a, b, c, d, e, g⟩ := p
+  cases v with
+  | itermLines rows =>
+    have h := linesLoop_genFree rows
+    cases a <;> cases b <;> cases c <;> cases d <;> cases e <;> cases g <;>
+      simp [renderImage, rawPixelsCore, Prog.block, Prog.allB, h, setFrameR, getRenderData, convertResize, convertStep,
+        Act.genFreeB, Reg.notGen]
+  | _ => cases a <;> cases b <;> cases c <;> cases d <;> cases e <;> cases g <;> rfl
+
 /-! ### what an iterator holds -/
 
 /-- nothing is referenced through the iterator any more -/
@@ -250,6 +326,432 @@ theorem iterOp_eq (src : Src) (needN nProp : Bool) (v : Variant) (frames : List 
     iterOp src needN nProp v frames e =
       .seq (iterNew src needN nProp) (.seq (iterFrames v 0 true frames) (endingProg src frames.length frames.isEmpty e)) := by
   cases e <;> rfl
+
+/-! ### seek position -/
+
+def Act.noSaveSeekB : Act → Bool
+  | .saveSeek => false
+  | _ => true
+
+def Act.noSeekB : Act → Bool
+  | .saveSeek | .setSeek _ | .restoreSeek => false
+  | _ => true
+
+theorem savedSeek_closeImageH (w : World) (o : Option Nat) : (closeImageH w o).savedSeek = w.savedSeek := by
+  unfold closeImageH; split; rfl; split <;> rfl
+theorem seekPos_closeImageH (w : World) (o : Option Nat) : (closeImageH w o).seekPos = w.seekPos := by
+  unfold closeImageH; split; rfl; split <;> rfl
+theorem savedSeek_noteUse (w : World) (c : Call) (o : Option Nat) : (noteUse w c o).savedSeek = w.savedSeek := by
+  unfold noteUse; split; (split <;> rfl); rfl
+theorem seekPos_noteUse (w : World) (c : Call) (o : Option Nat) : (noteUse w c o).seekPos = w.seekPos := by
+  unfold noteUse; split; (split <;> rfl); rfl
+
+theorem savedSeek_preserved (a : Act) (h : a.noSaveSeekB = true) (w : World) :
+    (a.apply w).savedSeek = w.savedSeek := by
+  cases a <;> simp only [Act.noSaveSeekB] at h <;> (try simp only [Act.apply]) <;>
+    first
+    | rfl
+    | exact savedSeek_noteUse _ _ _
+    | exact savedSeek_closeImageH _ _
+    | (split <;> first
+        | rfl
+        | exact savedSeek_closeImageH _ _
+        | (split <;> rfl)
+        | (show (closeImageH _ _).savedSeek = _; rw [savedSeek_closeImageH]; rfl))
+    | exact absurd h (by simp)
+
+theorem seekPos_preserved (a : Act) (h : a.noSeekB = true) (w : World) :
+    (a.apply w).seekPos = w.seekPos := by
+  cases a <;> simp only [Act.noSeekB] at h <;> (try simp only [Act.apply]) <;>
+    first
+    | rfl
+    | exact seekPos_noteUse _ _ _
+    | exact seekPos_closeImageH _ _
+    | (split <;> first
+        | rfl
+        | exact seekPos_closeImageH _ _
+        | (split <;> rfl)
+        | (show (closeImageH _ _).seekPos = _; rw [seekPos_closeImageH]; rfl))
+    | exact absurd h (by simp)
+
+def πSeek (w : World) : Nat × Nat := (w.seekPos, w.savedSeek)
+theorem stable_seek : Stable πSeek := ⟨fun _ _ => rfl, fun _ _ _ => rfl, fun _ _ => rfl⟩
+theorem stable_savedSeek : Stable (fun w => w.savedSeek) := ⟨fun _ _ => rfl, fun _ _ _ => rfl, fun _ _ => rfl⟩
+
+theorem noSeek_noSave (a : Act) (h : a.noSeekB = true) : a.noSaveSeekB = true := by
+  cases a <;> simp_all [Act.noSeekB, Act.noSaveSeekB]
+
+theorem neutral_seek_of_allB (p : Prog) (h : p.allB Act.noSeekB (fun _ => true) = true) : Neutral πSeek p :=
+  neutral_of_all πSeek stable_seek _ _
+    (fun a ha w => by
+      simp only [πSeek]; rw [seekPos_preserved a ha, savedSeek_preserved a (noSeek_noSave a ha)])
+    (fun _ _ _ _ => rfl) p (all_of_allB _ _ p h)
+
+theorem neutral_savedSeek_of_allB (p : Prog) (h : p.allB Act.noSaveSeekB (fun _ => true) = true) :
+    Neutral (fun w => w.savedSeek) p :=
+  neutral_of_all _ stable_savedSeek _ _ (fun a ha w => savedSeek_preserved a ha w) (fun _ _ _ _ => rfl) p
+    (all_of_allB _ _ p h)
+
+theorem genFree_noSeek (a : Act) (h : a.genFreeB = true) : a.noSeekB = true := by
+  cases a <;> simp_all [Act.genFreeB, Act.noSeekB]
+
+/-! ### what the iterator references: `_img` and the generator's `img` -/
+
+def πG (w : World) : Option Nat × Option Nat := (w.held, w.regs .gen)
+theorem stable_G : Stable πG := ⟨fun _ _ => rfl, fun _ _ _ => rfl, fun _ _ => rfl⟩
+
+theorem πG_setReg (t : Reg) (h : t.notGen = true) (w : World) (v : Option Nat) : πG (w.setReg t v) = πG w := by
+  have hne : ¬ Reg.gen = t := by
+    intro e; subst e; simp [Reg.notGen] at h
+  simp [πG, World.setReg, hne]
+
+theorem πG_closeImageH (w : World) (o : Option Nat) : πG (closeImageH w o) = πG w := by
+  unfold closeImageH; split; rfl; split <;> rfl
+theorem πG_noteUse (w : World) (c : Call) (o : Option Nat) : πG (noteUse w c o) = πG w := by
+  unfold noteUse; split; (split <;> rfl); rfl
+
+theorem genFree_preserves (a : Act) (h : a.genFreeB = true) (w : World) : πG (a.apply w) = πG w := by
+  cases a <;> simp only [Act.genFreeB] at h <;> simp only [Act.apply]
+  case create c role to site =>
+    show πG (World.emit (World.setReg _ to _) _) = _
+    rw [stable_G.emit, πG_setReg to h]; exact stable_G.alloc w _ _
+  case derive c frm to =>
+    show πG (World.emit (World.setReg _ to _) _) = _
+    rw [stable_G.emit, πG_setReg to h]
+    exact (stable_G.alloc _ _ _).trans (πG_noteUse w _ _)
+  case pil => exact πG_noteUse w _ _
+  case useSource to => exact πG_setReg to h _ _
+  case mov dst src => exact πG_setReg dst h _ _
+  case clear r => exact πG_setReg r h _ _
+  case closeImage => exact πG_closeImageH _ _
+  case closeUnless => split; rfl; exact πG_closeImageH _ _
+  case rawOpen to =>
+    show πG (World.setReg _ to _) = _
+    rw [πG_setReg to h]; exact stable_G.alloc w _ _
+  case rawClose => split; (split <;> rfl); rfl
+  all_goals exact absurd h (by simp)
+
+theorem neutral_G_of_genFree (p : Prog) (h : p.allB Act.genFreeB Reg.notGen = true) : Neutral πG p :=
+  neutral_of_all πG stable_G _ _ (fun a ha w => genFree_preserves a ha w) (fun t ht w v => πG_setReg t ht w v) p
+    (all_of_allB _ _ p h)
+
+theorem released_of_πG (w w' : World) (h : πG w' = πG w) (hr : Released w) : Released w' := by
+  simp only [πG, Prod.mk.injEq] at h
+  exact ⟨h.1.trans hr.1, by simp only [World.reg] at hr ⊢; exact h.2.trans hr.2⟩
+
+/-- the complete outcome of `_renderer` -/
+theorem renderer_outcome (sizeOk : Bool) (body : Prog) (f : Option Nat) (w : World) :
+    (renderer sizeOk body).run f w =
+      ⟨Act.restoreSize.apply ((Prog.seq (if sizeOk then Prog.done else Prog.raise .sizeError) body).run f
+          (Act.setSizeTemp.apply (Act.saveSize.apply w))).w,
+        ((Prog.seq (if sizeOk then Prog.done else Prog.raise .sizeError) body).run f
+          (Act.setSizeTemp.apply (Act.saveSize.apply w))).f,
+        ((Prog.seq (if sizeOk then Prog.done else Prog.raise .sizeError) body).run f
+          (Act.setSizeTemp.apply (Act.saveSize.apply w))).exc⟩ := by
+  simp only [renderer, Prog.block, Prog.run, Act.call?]
+
+theorem πG_sizeActs (w : World) :
+    πG (Act.saveSize.apply w) = πG w ∧ πG (Act.setSizeTemp.apply w) = πG w ∧ πG (Act.restoreSize.apply w) = πG w := by
+  refine ⟨rfl, ?_, ?_⟩ <;> simp only [Act.apply] <;> split <;> rfl
+
+theorem getImage_genFree (src : Src) (closed : Bool) (to : Reg) (site : Nat) (h : to.notGen = true) :
+    (getImage src closed to site).allB Act.genFreeB Reg.notGen = true := by
+  cases src <;> cases closed <;> simp [getImage, Prog.allB, Act.genFreeB] <;>
+    (intro e; subst e; simp [Reg.notGen] at h)
+
+theorem nFramesOp_genFree (src : Src) (closed isProp : Bool) :
+    (nFramesOp src closed isProp).allB Act.genFreeB Reg.notGen = true := by
+  cases src <;> cases closed <;> cases isProp <;> rfl
+
+/-- `ImageIterator.__init__`: `_img` is never set by it, and if it fails nothing is bound to
+    the generator either -/
+theorem iterNew_binds (src : Src) (needN nProp : Bool) (f : Option Nat) (w : World) (h : Released w) :
+    ((iterNew src needN nProp).run f w).w.held = none ∧
+    (((iterNew src needN nProp).run f w).exc ≠ none → Released ((iterNew src needN nProp).run f w).w) := by
+  have hN : Neutral πG (if needN then nFramesOp src false nProp else Prog.done) := by
+    split
+    · exact neutral_G_of_genFree _ (nFramesOp_genFree _ _ _)
+    · exact neutral_done _
+  have hN' := hN f w
+  simp only [iterNew, Prog.run]
+  generalize (if needN then nFramesOp src false nProp else Prog.done).run f w = oN at hN' ⊢
+  have hRN : Released oN.w := released_of_πG w oN.w hN' h
+  split
+  · exact ⟨hRN.1, fun _ => hRN⟩
+  · rw [renderer_outcome]
+    simp only [if_true, Prog.run]
+    -- the world just before `self._get_image()`
+    have hR1 : Released (Act.setSizeTemp.apply (Act.saveSize.apply oN.w)) :=
+      released_of_πG _ _ (by rw [(πG_sizeActs _).2.1, (πG_sizeActs _).1]) hRN
+    generalize Act.setSizeTemp.apply (Act.saveSize.apply oN.w) = w1 at hR1 ⊢
+    have hrest : ∀ w2 : World, Released w2 → Released (Act.restoreSize.apply w2) :=
+      fun w2 h2 => released_of_πG _ _ (πG_sizeActs w2).2.2 h2
+    have hheld : ∀ w2 : World, (Act.restoreSize.apply w2).held = w2.held := by
+      intro w2; simp only [Act.apply]; split <;> rfl
+    cases src with
+    | pil =>
+      simp only [getImage, Bool.false_eq_true, if_false, Prog.run, Act.call?]
+      refine ⟨?_, fun hne => absurd rfl hne⟩
+      rw [hheld]; exact hR1.1
+    | file =>
+      simp only [getImage, Bool.false_eq_true, if_false, Prog.run, Act.call?]
+      rcases oN.f with _ | _ | k
+      · refine ⟨?_, fun hne => absurd rfl hne⟩
+        rw [hheld]; exact hR1.1
+      · exact ⟨by rw [hheld]; exact hR1.1, fun _ => hrest _ hR1⟩
+      · refine ⟨?_, fun hne => absurd rfl hne⟩
+        rw [hheld]; exact hR1.1
+
+/-! ### `_display_animated` -/
+
+/-- the frame loop of `_display_animated` (what runs inside its `try`) -/
+def drawT (src : Src) (v : Variant) (frames : List RP) : Prog :=
+  Prog.block [.act (.hold .gen), plainFrames v 0 frames, eofBody src frames.length]
+
+/-- its `finally` -/
+def drawFin : Prog := Prog.block [.act .iterClose, .act (.closeImage .img0), .act .restoreSeek]
+
+/-- what `_renderer` runs for an animated `draw()` -/
+def drawBody (src : Src) (needN nProp : Bool) (v : Variant) (frames : List RP) : Prog :=
+  .seq (getImage src false .img0) (.seq (.act .saveSeek) (.seq (iterNew src needN nProp)
+    (.seq (.act (.mov .gen .img0)) (.tryFinally (.tryExcept (drawT src v frames) .done none) drawFin))))
+
+theorem drawAnimOp_eq (src : Src) (sizeOk needN nProp : Bool) (v : Variant) (frames : List RP) :
+    drawAnimOp src sizeOk needN nProp v frames = renderer sizeOk (drawBody src needN nProp v frames) := rfl
+
+theorem plainFrames_noSaveSeek (v : Variant) (frames : List RP) :
+    ∀ n, (plainFrames v n frames).allB Act.noSaveSeekB (fun _ => true) = true := by
+  induction frames with
+  | nil => intro n; rfl
+  | cons p ps ih =>
+    intro n
+    simp only [plainFrames, Prog.allB, ih, Bool.and_true, frameBody]
+    apply allB_block
+    intro q hq
+    simp only [List.mem_cons, List.not_mem_nil, or_false] at hq
+    rcases hq with rfl | rfl | rfl
+    · rfl
+    · rfl
+    · exact allB_mono _ _ _ _ (fun a ha => noSeek_noSave a (genFree_noSeek a ha)) (fun _ _ => rfl) _
+        (renderImage_genFree v _)
+
+theorem drawT_noSaveSeek (src : Src) (v : Variant) (frames : List RP) :
+    (Prog.tryExcept (drawT src v frames) .done none).allB Act.noSaveSeekB (fun _ => true) = true := by
+  simp only [Prog.allB, Bool.and_true, drawT]
+  apply allB_block
+  intro q hq
+  simp only [List.mem_cons, List.not_mem_nil, or_false] at hq
+  rcases hq with rfl | rfl | rfl
+  · rfl
+  · exact plainFrames_noSaveSeek v frames 0
+  · cases src <;> rfl
+
+theorem iterNew_noSeek (src : Src) (needN nProp : Bool) :
+    (iterNew src needN nProp).allB Act.noSeekB (fun _ => true) = true := by
+  cases src <;> cases needN <;> cases nProp <;> rfl
+
+/-- the `finally` of `_display_animated` always runs to its end and restores the seek position -/
+theorem drawTail_seek (T : Prog) (hT : Neutral (fun w => w.savedSeek) T) (f : Option Nat) (w : World) :
+    ((Prog.tryFinally T drawFin).run f w).w.seekPos = w.savedSeek := by
+  have hic : ∀ w : World, (Act.iterClose.apply w).savedSeek = w.savedSeek :=
+    fun w => savedSeek_preserved .iterClose rfl w
+  simp only [drawFin, Prog.block, Prog.run, Act.call?]
+  show (Act.restoreSeek.apply _).seekPos = _
+  simp only [Act.apply]
+  show (closeImageH (Act.iterClose.apply (T.run f w).w) _).savedSeek = _
+  rw [savedSeek_closeImageH, hic]
+  exact hT f w
+
+/-- … and leaves the iterator holding nothing -/
+theorem drawTail_released (T : Prog) (f : Option Nat) (w : World) :
+    Released ((Prog.tryFinally T drawFin).run f w).w := by
+  simp only [drawFin, Prog.block, Prog.run, Act.call?]
+  have h := released_iterClose (T.run f w).w
+  refine released_of_πG _ _ ?_ h
+  show πG (Act.restoreSeek.apply (Act.apply _ (Act.closeImage .img0))) = _
+  simp only [Act.apply]
+  exact πG_closeImageH _ _
+
+theorem drawBody_seek (src : Src) (needN nProp : Bool) (v : Variant) (frames : List RP) (f : Option Nat) (w : World) :
+    ((drawBody src needN nProp v frames).run f w).w.seekPos = w.seekPos := by
+  have hG : Neutral πSeek (getImage src false .img0) := neutral_seek_of_allB _
+    (allB_mono _ _ _ _ genFree_noSeek (fun _ _ => rfl) _ (getImage_genFree src false .img0 0 rfl))
+  have hN : Neutral πSeek (iterNew src needN nProp) := neutral_seek_of_allB _ (iterNew_noSeek _ _ _)
+  have hT := neutral_savedSeek_of_allB _ (drawT_noSaveSeek src v frames)
+  simp only [drawBody, Prog.run]
+  have h1 := hG f w
+  generalize (getImage src false .img0).run f w = o1 at h1 ⊢
+  simp only [πSeek, Prod.mk.injEq] at h1
+  split
+  · exact h1.1
+  · simp only [Act.call?]
+    have h2 := hN o1.f (Act.saveSeek.apply o1.w)
+    generalize (iterNew src needN nProp).run o1.f (Act.saveSeek.apply o1.w) = o2 at h2 ⊢
+    simp only [πSeek, Prod.mk.injEq, Act.apply] at h2
+    split
+    · rw [h2.1]; exact h1.1
+    · have := drawTail_seek (.tryExcept (drawT src v frames) .done none) hT o2.f (Act.apply o2.w (.mov .gen .img0))
+      simp only [Prog.run] at this
+      rw [this]
+      show o2.w.savedSeek = _
+      rw [h2.2]; exact h1.1
+
+theorem drawBody_released (src : Src) (needN nProp : Bool) (v : Variant) (frames : List RP) (f : Option Nat)
+    (w : World) (h : Released w) : Released ((drawBody src needN nProp v frames).run f w).w := by
+  have hG : Neutral πG (getImage src false .img0) := neutral_G_of_genFree _ (getImage_genFree src false .img0 0 rfl)
+  simp only [drawBody, Prog.run]
+  have h1 := hG f w
+  generalize (getImage src false .img0).run f w = o1 at h1 ⊢
+  have hR1 : Released o1.w := released_of_πG _ _ h1 h
+  split
+  · exact hR1
+  · simp only [Act.call?]
+    have hR1' : Released (Act.saveSeek.apply o1.w) := released_of_πG _ _ rfl hR1
+    have h2 := iterNew_binds src needN nProp o1.f _ hR1'
+    generalize (iterNew src needN nProp).run o1.f (Act.saveSeek.apply o1.w) = o2 at h2 ⊢
+    split
+    · rename_i e he
+      exact h2.2 (by rw [he]; simp)
+    · have := drawTail_released (.tryExcept (drawT src v frames) .done none) o2.f (Act.apply o2.w (.mov .gen .img0))
+      simp only [Prog.run] at this
+      exact this
+
+/-! ### explicit closing -/
+
+/-- every image or file the library opened from a path has been closed explicitly -/
+def World.openedAllClosed (w : World) : Bool :=
+  w.handles.all (fun h => (h.role != .opened && h.role != .raw) || h.closed)
+
+/-- the world an operation starts in -/
+def initW (src : Src) : World :=
+  match src with
+  | .file => {}
+  | .pil => { handles := [{ role := .source }], source := some 0 }
+
+def Variant.isLines : Variant → Bool
+  | .itermLines _ => true
+  | _ => false
+
+theorem run_seq_assoc (p q r : Prog) (f : Option Nat) (w : World) :
+    (Prog.seq (Prog.seq p q) r).run f w = (Prog.seq p (Prog.seq q r)).run f w := by
+  simp only [Prog.run]
+  cases h : (p.run f w).exc with
+  | some e => simp [h]
+  | none => simp [h]
+
+theorem all_modify {β : Type} (P : β → Bool) (g : β → β) (hg : ∀ x, P x = true → P (g x) = true) :
+    ∀ (l : List β) (i : Nat), l.all P = true → (l.modify i g).all P = true := by
+  intro l
+  induction l with
+  | nil => intro i h; simpa using h
+  | cons x xs ih =>
+    intro i h
+    simp only [List.all_cons, Bool.and_eq_true] at h
+    cases i with
+    | zero => simp only [List.modify_cons, if_true, List.all_cons, Bool.and_eq_true]; exact ⟨hg x h.1, h.2⟩
+    | succ i =>
+      simp only [List.modify_cons, Nat.succ_ne_zero, if_false, List.all_cons, Bool.and_eq_true]
+      exact ⟨h.1, by simpa using ih i h.2⟩
+
+theorem oac_closeH (w : World) (i : Nat) (h : w.openedAllClosed = true) : (w.closeH i).openedAllClosed = true := by
+  simp only [World.openedAllClosed, World.closeH] at h ⊢
+  exact all_modify _ _ (fun x hx => by simp) _ _ h
+
+theorem oac_handles (w w' : World) (h : w'.handles = w.handles) : w'.openedAllClosed = w.openedAllClosed := by
+  simp only [World.openedAllClosed, h]
+
+theorem oac_noteUse (w : World) (c : Call) (o : Option Nat) : (noteUse w c o).openedAllClosed = w.openedAllClosed := by
+  unfold noteUse; split; (split <;> rfl); rfl
+
+/-- the LINES loop (`with PIL.Image.frombytes(…) as img: img.save(…)`, once per line) creates and
+    closes only memory images: whatever fails, files that were closed stay closed and none is opened -/
+theorem linesLoop_oac (n : Nat) : ∀ (f : Option Nat) (w : World), w.openedAllClosed = true →
+    ((linesLoop n).run f w).w.openedAllClosed = true := by
+  induction n with
+  | zero => intro f w h; exact h
+  | succ n ih =>
+    intro f w h
+    simp only [linesLoop, Prog.run]
+    have hbody : ∀ (f' : Option Nat),
+        ((Prog.withNew .frombytes .derived .img (.act (.pil .save .img))).run f' w).w.openedAllClosed = true := by
+      intro f'
+      simp only [Prog.run]
+      split
+      · exact h
+      · apply oac_closeH
+        have hw1 : ((((w.alloc .derived).1.setReg .img (some (w.alloc .derived).2)).emit
+            (.call .frombytes none (some (w.alloc .derived).2)))).openedAllClosed = true := by
+          simp only [World.openedAllClosed, World.emit, World.setReg, World.alloc, List.all_append] at h ⊢
+          simp [h]
+        generalize (((w.alloc .derived).1.setReg .img (some (w.alloc .derived).2)).emit
+            (.call .frombytes none (some (w.alloc .derived).2))) = w1 at hw1 ⊢
+        simp only [Act.call?]
+        split
+        · exact hw1
+        · simp only [Act.apply]
+          exact (oac_handles (noteUse w1 _ _) _ rfl).trans ((oac_noteUse w1 _ _).trans hw1)
+        · simp only [Act.apply]
+          exact (oac_handles (noteUse w1 _ _) _ rfl).trans ((oac_noteUse w1 _ _).trans hw1)
+    split
+    · exact hbody f
+    · exact ih _ _ (hbody f)
+
+/-- EXPLICIT CLOSE, every path but iterm2 LINES (decided path by path: 2 sources × size check ×
+    6 branches × 32 data paths): a fault-free `format()` / `str()` / still `draw()` closes — by a
+    `close()` call, not by the garbage collector — every image and file it opened -/
+theorem explicit_close_nolines (src : Src) (sizeOk : Bool) (v : Variant) (p : RP) (hv : v.isLines = false)
+    (hf : p.frame = false) :
+    ((fmtOp src false sizeOk v p).run none (initW src)).w.openedAllClosed = true := by
+  obtain ⟨a, b, c, d, e, g⟩ := p
+  simp only at hf
+  subst hf
+  cases v <;> (try (simp [Variant.isLines] at hv)) <;>
+    cases src <;> cases sizeOk <;> cases a <;> cases c <;> cases d <;> cases e <;> cases g <;> decide
+
+theorem run_seq4 (X G C L : Prog) (f : Option Nat) (w : World) :
+    (Prog.seq X (Prog.seq G (Prog.seq C L))).run f w = (Prog.seq (Prog.seq X (Prog.seq G C)) L).run f w := by
+  simp only [Prog.run]
+  cases hx : (X.run f w).exc with
+  | some e => simp [hx]
+  | none =>
+    simp only [hx]
+    cases hg : (G.run (X.run f w).f (X.run f w).w).exc with
+    | some e => simp [hg]
+    | none => simp [hg]
+
+theorem run_seq_def (p q : Prog) (f : Option Nat) (w : World) :
+    (Prog.seq p q).run f w =
+      match (p.run f w).exc with
+      | some e => ⟨(p.run f w).w, (p.run f w).f, some e⟩
+      | none => q.run (p.run f w).f (p.run f w).w := by
+  simp only [Prog.run]
+  cases (p.run f w).exc <;> rfl
+
+/-- EXPLICIT CLOSE, all paths -/
+theorem explicit_close_all (src : Src) (sizeOk : Bool) (v : Variant) (p : RP) (hf : p.frame = false) :
+    ((fmtOp src false sizeOk v p).run none (initW src)).w.openedAllClosed = true := by
+  cases v with
+  | itermLines rows =>
+    have hk := explicit_close_nolines src sizeOk .kitty p rfl hf
+    have hrs : ∀ w : World, (Act.restoreSize.apply w).openedAllClosed = w.openedAllClosed :=
+      fun w => oac_handles _ _ (by simp only [Act.apply]; split <;> rfl)
+    simp only [fmtOp] at hk ⊢
+    rw [renderer_outcome] at hk ⊢
+    simp only [renderImage] at hk ⊢
+    rw [hrs] at hk ⊢
+    rw [run_seq4, run_seq_def]
+    generalize (Prog.seq (if sizeOk then Prog.done else Prog.raise .sizeError)
+      (Prog.seq (getImage src false .img) (rawPixelsCore p))).run none
+        (Act.setSizeTemp.apply (Act.saveSize.apply (initW src))) = o at hk ⊢
+    split
+    · exact hk
+    · exact linesLoop_oac rows _ _ hk
+  | block => exact explicit_close_nolines src sizeOk _ p rfl hf
+  | kitty => exact explicit_close_nolines src sizeOk _ p rfl hf
+  | itermWhole => exact explicit_close_nolines src sizeOk _ p rfl hf
+  | itermNativeFile => exact explicit_close_nolines src sizeOk _ p rfl hf
+  | itermNativeSave => exact explicit_close_nolines src sizeOk _ p rfl hf
+  | itermReadFile => exact explicit_close_nolines src sizeOk _ p rfl hf
 
 /-! ### the caller's PIL image -/
 
